@@ -1,6 +1,7 @@
 #!/bin/bash
 # Regression of detection: every seeded change against its target property's quick check, on a private repository copy
 # (meant for `vp run --with-repo -- bin/regress_seeded.sh`).  One line per change.
+export VERIF_EVIDENCE_DIR=${VERIF_EVIDENCE_DIR:-/verif/.work/evidence-scratch}   # never overwrite the committed evidence
 REPO=${VP_RUN_REPO:-}
 [ -n "$REPO" ] && [ "$REPO" != "/repo" ] || { echo "needs VP_RUN_REPO (vp run --with-repo)"; exit 2; }
 export VERIF_REPO=$REPO
